@@ -1,4 +1,5 @@
 import CoxeterVerif.Vec
+import CoxeterVerif.Model.Balls
 /-!
   Specification layer for C13: what it MEANS for a ball (centre `c`, radius `r`) to be a bounding,
   minimal bounding, centred bounding, bounded, circum- or in-ball.  Plain definitions, independent
@@ -107,5 +108,97 @@ def certificate (pts : List (V3 α)) (c : V3 α) (r2 : α) (sup : List (α × V3
     | [] => lit 0
     | x :: xs => xs.foldl Scalar.min x
   (slack, dev, sl - lit 1, V3.normSq (comb - c), lmin)
+
+/-! ### certificate checkers (the driver runs them at exact `Rat`; soundness and completeness are
+proved in `Lemmas/BallsCert.lean`, `Lemmas/BallsLstsq.lean`)
+
+`Balls.Row` (one equation `a·x + k·r = b`) is imported from the model as a plain record. -/
+
+/-- exact test `a = 0` -/
+def isZero (a : α) : Bool := Scalar.eqb a (lit 0)
+
+def v3Eqb (u v : V3 α) : Bool := Scalar.eqb u.x v.x && Scalar.eqb u.y v.y && Scalar.eqb u.z v.z
+
+/-- total weight `Λ = Σ λ_j` of a weighted support -/
+def supWeight (sup : List (α × V3 α)) : α := Scalar.sum (sup.map (·.1))
+
+/-- the convex combination `c* = Σ λ_j s_j / Λ` -/
+def supCentre (sup : List (α × V3 α)) : V3 α :=
+  V3.sdiv (V3.sum (sup.map fun s => V3.smul s.1 s.2)) (supWeight sup)
+
+/-- **lower bound of a weighted support**: `Σ λ_j ‖s_j − c*‖² / Λ`. Every ball containing the
+support points has squared radius at least this (theorem `certLower_le`). -/
+def certLower (sup : List (α × V3 α)) : α :=
+  Scalar.sum (sup.map fun s => s.1 * distSq s.2 (supCentre sup)) / supWeight sup
+
+/-- decidable side conditions of the lower bound: weights `≥ 0`, total weight `> 0`, every
+support point is (exactly) one of the points -/
+def certSide (pts : List (V3 α)) (sup : List (α × V3 α)) : Bool :=
+  sup.all (fun s => decide (lit 0 ≤ s.1) && pts.any (fun p => v3Eqb s.2 p)) &&
+    decide (lit 0 < supWeight sup)
+
+/-- exact form of the certificate: the ball `(c, r²)` contains the points, and the lower bound of
+the support reaches `r²` — then `(c, √r²)` IS the minimal ball (theorem `certExact_sound`) -/
+def certExact (pts : List (V3 α)) (c : V3 α) (r2 : α) (sup : List (α × V3 α)) : Bool :=
+  certSide pts sup && pts.all (fun p => decide (distSq p c ≤ r2)) && decide (r2 ≤ certLower sup)
+
+/-- `Aᵀ(A(x,r) − b)`: half the gradient of `‖A(x,r) − b‖²` at `(x, r)` -/
+def normalGrad (rows : List (Balls.Row α)) (x : V3 α) (r : α) : V3 α × α :=
+  (V3.sum (rows.map fun row => V3.smul (row.resid x r) row.a),
+   Scalar.sum (rows.map fun row => row.resid x r * row.k))
+
+/-- **least-squares certificate**: the normal equations hold exactly at `(x, r)`. Sound and
+complete for "`(x, r)` minimises `‖A(x,r) − b‖²`" (theorems `lstsqCert_iff`). -/
+def lstsqCert (rows : List (Balls.Row α)) (x : V3 α) (r : α) : Bool :=
+  let g := normalGrad rows x r
+  isZero g.1.x && isZero g.1.y && isZero g.1.z && isZero g.2
+
+/-! exact solver of the normal equations (Gauss–Jordan with exact zero tests, free unknowns `0`).
+It is NOT trusted: its result is accepted only if `lstsqCert` holds for it. -/
+
+def getD0 (l : List α) (i : Nat) : α := l.getD i (lit 0)
+
+def rowSubMul (r p : List α) (f : α) : List α := List.zipWith (fun a b => a - f * b) r p
+
+/-- split off the first element satisfying `pred` -/
+def splitFirst {β : Type} (pred : β → Bool) : List β → Option (β × List β)
+  | [] => none
+  | x :: xs => if pred x then some (x, xs) else
+      match splitFirst pred xs with
+      | none => none
+      | some (y, ys) => some (y, x :: ys)
+
+/-- Gauss–Jordan over the columns `col, col+1, …` (`fuel` of them); `done` = (pivot column, row) -/
+def gaussJordan : Nat → Nat → List (Nat × List α) → List (List α) → List (Nat × List α)
+  | 0, _, done, _ => done
+  | fuel + 1, col, done, rest =>
+    match splitFirst (fun r => !(isZero (getD0 r col))) rest with
+    | none => gaussJordan fuel (col + 1) done rest
+    | some (p, rest) =>
+      let pv := getD0 p col
+      let p := p.map (· / pv)
+      let rest := rest.map fun r => rowSubMul r p (getD0 r col)
+      let done := done.map fun d => (d.1, rowSubMul d.2 p (getD0 d.2 col))
+      gaussJordan fuel (col + 1) ((col, p) :: done) rest
+
+/-- a solution of `M z = v` (augmented rows `M_i ++ [v_i]`, `n` unknowns), free unknowns `0` -/
+def solveAug (n : Nat) (aug : List (List α)) : List α :=
+  let done := gaussJordan n 0 [] aug
+  (List.range n).map fun j =>
+    match done.find? (fun d => d.1 == j) with
+    | some d => getD0 d.2 n
+    | none => lit 0
+
+/-- the augmented normal equations `AᵀA | Aᵀb` of a system (unknowns `x, y, z, r`) -/
+def normalAug (rows : List (Balls.Row α)) : List (List α) :=
+  let feat : Balls.Row α → List α := fun row => [row.a.x, row.a.y, row.a.z, row.k]
+  (List.range 4).map fun i =>
+    ((List.range 4).map fun j => Scalar.sum (rows.map fun row => getD0 (feat row) i * getD0 (feat row) j))
+      ++ [Scalar.sum (rows.map fun row => getD0 (feat row) i * row.b)]
+
+/-- candidate least-squares minimiser (to be checked with `lstsqCert`) -/
+def solveNormal (rows : List (Balls.Row α)) : V3 α × α :=
+  let z := solveAug 4 (normalAug rows)
+  (⟨getD0 z 0, getD0 z 1, getD0 z 2⟩, getD0 z 3)
 
 end BallSpec
